@@ -501,6 +501,10 @@ def _compose_slices(outer_slice, inner_slice, dim_size):
 
     # Get the range of the inner slice relative to outer's result
     inner_start, inner_stop, inner_step = inner_slice.indices(outer_len)
+    if len(range(inner_start, inner_stop, inner_step)) == 0:
+        # Nothing selected.  Clamped bounds such as -1 must not leak into the
+        # composed slice, where they would be re-read as relative to the end.
+        return slice(0, 0, None)
 
     # Compose: offset inner by outer_start
     if outer_step != 1 or inner_step != 1:
@@ -511,6 +515,11 @@ def _compose_slices(outer_slice, inner_slice, dim_size):
         new_start = outer_start + inner_start
         new_stop = outer_start + inner_stop
         new_step = 1
+
+    if new_step < 0 and new_stop < 0:
+        # the selection runs down to index 0; a negative stop would be
+        # re-read as relative to the end
+        new_stop = None
 
     return slice(new_start, new_stop, new_step if new_step != 1 else None)
 
